@@ -244,3 +244,96 @@ def haddp_spec(ty, cfg, n, args, ev):
             return False, 'lane i = sum of row i', 'P', 'lane %d leaves: %s' % (i, ', '.join(T.fmt(l, 2) for l in leaves)[:400])
     # footprint: exactly the n rows
     return True, 'lane i = fadd tree over the n lanes of row i', 'P', ''
+
+
+# ---------------------------------------------------------------- C05 data movement (provenance)
+def _lanes_check(ty, cfg, n, ev, want, label):
+    ret = ev.ret
+    W = ty.bits
+    if ret is None or isinstance(ret, (lanes.Ptr, dict)):
+        return False, label, 'P', 'no register result'
+    for i in range(n):
+        got = T.slice_(ret, i * W, W)
+        if got != want[i]:
+            return False, label, 'P', 'output lane %d holds %s, the definition says %s' % (i, T.fmt(got, 3)[:200], T.fmt(want[i], 3)[:120])
+    return True, label, 'P', ''
+
+
+def swizzle_spec(ty, cfg, n, args, ev, V):
+    a = args[0]
+    return _lanes_check(ty, cfg, n, ev, [a[v] for v in V], 'out[i] = x[idx[i]]')
+
+
+def shuffle_spec(ty, cfg, n, args, ev, V):
+    a, b = args[0], args[1]
+    return _lanes_check(ty, cfg, n, ev, [a[v] if v < n else b[v - n] for v in V], 'out[i] = idx[i]<n ? x[idx[i]] : y[idx[i]-n]')
+
+
+def zip_spec(hi):
+    def f(ty, cfg, n, args, ev):
+        a, b = args[0], args[1]
+        off = n // 2 if hi else 0
+        want = []
+        for i in range(n // 2):
+            want += [a[off + i], b[off + i]]
+        return _lanes_check(ty, cfg, n, ev, want, 'interleave of the %s halves' % ('high' if hi else 'low'))
+    return f
+
+
+def slide_spec(left):
+    def f(ty, cfg, n, args, ev, N):
+        A = T.cat(*args[0])
+        bits = cfg.bits
+        k = min(8 * N, bits)
+        want = T.cat(T.const(k, 0), T.slice_(A, 0, bits - k)) if left else T.cat(T.slice_(A, k, bits - k), T.const(k, 0))
+        if ev.ret == want:
+            return True, 'byte shift with zero fill', 'P', ''
+        # locate the first wrong byte
+        for i in range(bits // 8):
+            g, w_ = T.slice_(ev.ret, 8 * i, 8), T.slice_(want, 8 * i, 8)
+            if g != w_:
+                return False, 'byte shift with zero fill', 'P', 'output byte %d holds %s, the definition says %s' % (i, T.fmt(g, 3)[:160], T.fmt(w_, 3))
+        return False, 'byte shift with zero fill', 'P', 'width mismatch'
+    return f
+
+
+def rotate_spec(left):
+    def f(ty, cfg, n, args, ev, N):
+        a = args[0]
+        want = [a[(i + N) % n] if left else a[(i - N) % n] for i in range(n)]
+        return _lanes_check(ty, cfg, n, ev, want, 'out[i] = x[(i%sN) mod n]' % ('+' if left else '-'))
+    return f
+
+
+def extract_pair_spec(ty, cfg, n, args, ev, i):
+    a, b = args[0], args[1]
+    want = [b[i + j] for j in range(n - i)] + [a[k] for k in range(i)]
+    return _lanes_check(ty, cfg, n, ev, want, 'window [y[i..n-1], x[0..i-1]]')
+
+
+def insert_spec(ty, cfg, n, args, ev, I):
+    a, s = args[0], args[1]
+    want = [s[0] if i == I else a[i] for i in range(n)]
+    return _lanes_check(ty, cfg, n, ev, want, 'lane I replaced by the scalar')
+
+
+def compress_spec(ty, cfg, n, args, ev, m):
+    a = args[0]
+    sel_ = [i for i in range(n) if (m >> i) & 1]
+    z = T.const(ty.bits, 0)
+    want = [a[i] for i in sel_] + [z] * (n - len(sel_))
+    return _lanes_check(ty, cfg, n, ev, want, 'selected lanes packed to the front in order, zero fill')
+
+
+def expand_spec(ty, cfg, n, args, ev, m):
+    a = args[0]
+    z = T.const(ty.bits, 0)
+    want = []
+    j = 0
+    for i in range(n):
+        if (m >> i) & 1:
+            want.append(a[j])
+            j += 1
+        else:
+            want.append(z)
+    return _lanes_check(ty, cfg, n, ev, want, 'leading lanes spread to the selected positions in order, zero elsewhere')
